@@ -1,0 +1,21 @@
+//go:build verif
+
+// Contracts for this package, checked by /verif/bin/govc (comment-only file).
+package ckb
+
+//@ fileprops C18
+
+// Totality sweep: every function of the package is checked for index / slice-bounds /
+// nil / division / conversion panics on ALL inputs; loop invariants for index bounds are inferred.
+//@ sweep nopanic nonil infer
+
+//@ func truncateRunes
+//@   nopanic nonil
+//@   pure
+//@   requires 0 <= num && num <= runecount(elems(input), off(input), len(input))
+
+//@ func buildTermFromRunes
+//@   nopanic nonil
+//@   pure
+//@   infer
+//@   requires forall i int :: 0 <= i && i < len(runes) ==> validrune(runes[i])
